@@ -1,7 +1,7 @@
 (* C01 / C04 for the differential-evolution solvers: for every cost, penalty, constraints function, every stream of
    trial vectors (i.e. every strategy and every random draw) and every number of generations. *)
 From Coq Require Import List ZArith Bool Lia.
-From MV Require Import Common.Num Common.Order Core.Machine Core.Machine_Proofs Core.DE.
+From MV Require Import Common.Num Common.Order Core.Machine Core.Machine_Proofs Core.Stop_Proofs Core.DE.
 Import ListNotations.
 Open Scope Z_scope.
 
@@ -313,3 +313,36 @@ Section DECons.
     apply de_loop_cons. exact H.
   Qed.
 End DECons.
+
+(* C05 for differential evolution: Solve always returns (every generation logs exactly one record) *)
+Section DESolve.
+  Variable N : Num.
+  Variable inf : T N.
+  Variable de2 : bool.
+  Notation A := (de_algo N inf de2).
+
+  Lemma de_step_one_record s c i :
+    exists b, snd (snd (run_prog inf false s (de_step N inf s c i))) = [b].
+  Proof.
+    unfold de_step. rewrite (bind_run' N inf). cbn [run_prog fst snd]. eexists. reflexivity.
+  Qed.
+
+  Theorem de_solve_terminates : forall f s c is dflt mi mf,
+    abs_limits N mi mf s -> (0 <= mi)%Z ->
+    (Z.to_nat (mi + 3) <= S f + ehlen N _ _ A s c)%nat ->
+    snd (solve N inf _ _ A (S f) s c is dflt) = true.
+  Proof.
+    apply solve_terminates.
+    - (* progress *)
+      intros s c i. cbv zeta. cbn [a_nested a_step de_algo].
+      destruct (de_step_one_record s c i) as [b Hb]. rewrite Hb.
+      destruct (run_prog_cfg N inf false _ (de_step N inf s c i) s) as (_ & _ & Hs). cbv zeta in Hs.
+      unfold ehlen, energy_history. cbn [stepmon set_stepmon a_ehist_extra de_algo]. rewrite Hs.
+      rewrite !app_nil_r, map_app, app_length. simpl. lia.
+    - (* finalize *)
+      intros s c. cbn [a_finalize de_algo fst snd]. unfold ehlen, energy_history. cbn [stepmon set_stepmon].
+      rewrite (app_nil_r (stepmon N s)). apply Nat.le_refl.
+    - intros s c i. reflexivity.
+    - intros c. simpl. lia.
+  Qed.
+End DESolve.
